@@ -474,7 +474,7 @@ class C15g(Obligation):
         def prepare(module_context, tree_name):
             i = names.index(tree_name)
             depth.append(i)
-            if len(depth) > 40:
+            if len(depth) > 12:
                 raise RecursionError('unbounded import recursion')
             nxt = (i + 1) % n
             return ('x', ('a',), 0, ValuesStub(lambda: jimports.infer_import(contexts[nxt], names[nxt])))
